@@ -211,12 +211,12 @@ class Native:
         out = r.stdout + r.stderr
         return ("DATA RACE" in out), out[-1500:]
 
-    def timing(self, pre_hex, unit_hex, api, time_s=600):
+    def timing(self, pre_hex, unit_hex, api, post_hex="", time_s=600):
         """C09: native time ratio t(4N)/t(N) of the family pre + unit^N."""
         outp = os.path.join(self.tmp, "timing.json")
         if os.path.exists(outp):
             os.remove(outp)
-        env = dict(ENV, VERIF_TIMING=json.dumps({"Pre": pre_hex, "Unit": unit_hex, "API": api, "Out": outp}))
+        env = dict(ENV, VERIF_TIMING=json.dumps({"Pre": pre_hex, "Unit": unit_hex, "Post": post_hex, "API": api, "Out": outp}))
         try:
             subprocess.run([self.bin, "-test.run", "^TestVerifTiming$", "-test.count=1", "-test.timeout=0"], cwd=REPO, env=env, capture_output=True, text=True, timeout=time_s)
         except subprocess.TimeoutExpired:
